@@ -8,6 +8,7 @@ import (
 	"github.com/mmcloughlin/avo/attr"
 	"github.com/mmcloughlin/avo/ir"
 	"github.com/mmcloughlin/avo/operand"
+	"github.com/mmcloughlin/avo/pass"
 	"github.com/mmcloughlin/avo/reg"
 	"github.com/mmcloughlin/avo/x86"
 )
@@ -478,4 +479,52 @@ func bpSweepProgs(c *Ctx, every int) []*Prog {
 		}
 	}
 	return out
+}
+
+// multiFunctionFiles: an error a pass reports for one function of a file must be the outcome of the whole
+// compilation wherever that function stands in the file.  Every program the real pass.Compile refuses on
+// its own is put before, between and after functions it accepts; passes are also run one by one through
+// FunctionPass(...).Execute on the file, as a user's own pipeline would.
+func multiFunctionFiles(o *Out, progs []*Prog, keyPrefix string, limit int) {
+	compile := func(ps ...*Prog) (err error) {
+		defer func() {
+			if v := recover(); v != nil {
+				err = fmt.Errorf("panic: %v", v)
+			}
+		}()
+		f := ir.NewFile()
+		for k, p := range ps {
+			fn := p.Function()
+			fn.Name = fmt.Sprintf("f%d", k)
+			f.AddSection(fn)
+		}
+		return pass.Compile.Execute(f)
+	}
+	good := &Prog{Attrs: attr.NOSPLIT}
+	good.Nodes = append(good.Nodes, must(x86.MOVQ(operand.U32(1), reg.RAX)), must(x86.RET()))
+	if compile(good) != nil || compile(good, good) != nil {
+		die(fmt.Errorf("multiFunctionFiles: the reference function does not compile"))
+	}
+	n := 0
+	for _, p := range progs {
+		if n >= limit {
+			break
+		}
+		alone := compile(p)
+		if alone == nil {
+			continue
+		}
+		n++
+		idx := o.AddCase(Case{Key: keyPrefix + ":file-level", Desc: "refused alone (" + alone.Error() + "), placed among accepted functions: " + p.Text(), Input: map[string]any{"nodes": p.Text()}, Nontrivial: true})
+		for _, arr := range []struct {
+			name string
+			ps   []*Prog
+		}{{"first of two", []*Prog{p, good}}, {"last of two", []*Prog{good, p}}, {"middle of three", []*Prog{good, p, good}}} {
+			if err := compile(arr.ps...); err == nil {
+				o.Plan.GoViolations = append(o.Plan.GoViolations, GoViolation{Key: keyPrefix + ":error-masked-by-other-function", Desc: fmt.Sprintf("case %d: a function pass.Compile refuses on its own (%v) is accepted as the %s functions of a file: %s", idx, alone, arr.name, p.Text()), Replay: map[string]any{"nodes": p.Text(), "position": arr.name}})
+				break
+			}
+		}
+	}
+	o.Plan.Stats["refused_functions_placed_in_files"] = n
 }
